@@ -318,7 +318,7 @@ def gen_instance(rng, idx, tier, focus=None):
     }
     if settings["activate_unsat_support"] and settings["tree_insertion_methods"] is not None:
         settings["tree_insertion_methods"] = None   # the constructor prints a recommendation otherwise
-    clock = r.choice(["frozen", "slow", "slow", "jumpy", "step"])
+    clock = r.choice(["frozen", "slow", "slow", "jumpy", "step", "percall", "percall"])
     if settings["timeout_seconds"] is None and not settings["activate_unsat_support"]:
         clock = "slow"
     return {"idx": idx, "sub_seed": sub, "gname": gname, "grammar": g, "formula": formula, "ops": sorted(used),
@@ -378,6 +378,8 @@ class Trace:
             d = 0
         elif p == "slow":
             d = 1 if r.random() < 0.15 else 0
+        elif p == "percall":   # time passes between the calls only (see run_instance)
+            d = 0
         elif p == "jumpy":
             d = r.choice([0, 0, 0, 0, 1, 1, 4, 9])
         else:   # step: one second every read
@@ -477,6 +479,8 @@ def run_instance(inst):
                 rec["aborted"] = True; rec["abort_info"] = ("no time left", k); break
             tr.events = []
             out = None
+            if inst["clock"] == "percall" and k > 0:
+                tr.now += r.choice([0, 1, 1, 2])
             signal.setitimer(signal.ITIMER_REAL, left, 0.5)
             try:
                 t = solver.solve()
@@ -723,6 +727,17 @@ def run(run):
         insts.append(gen_instance(rng, len(insts), run.tier, focus=ALL_OPS[i % len(ALL_OPS)]))
     for i in range(n_rand):
         insts.append(gen_instance(rng, len(insts), run.tier))
+    # histories in which the deadline passes while solutions are still pending (order of the timeout test
+    # and the pending-solution test inside the loop)
+    for i in range(40 if thorough else 10):
+        it = gen_instance(rng, len(insts), run.tier)
+        gname = ["lang", "nums", "kv", "words"][i % 4]
+        it.update({"gname": gname, "grammar": GRAMMARS[gname], "kind": "pending", "ops": [],
+                   "formula": ["true", "forall <digit> v: (>= (str.to.int v) 0)" if gname != "words" else "true"][i % 2],
+                   "clock": ["percall", "percall", "percall", "slow"][i % 4], "ncalls": 12})
+        it["settings"].update({"max_number_free_instantiations": [10, 3, 5][i % 3], "timeout_seconds": [2, 5, 1, 2, 5][i % 5],
+                               "activate_unsat_support": False})
+        insts.append(it)
     # a few instances on the untouched class with the real clock (tiny real timeouts)
     n_plain = 24 if thorough else 6
     for i in range(n_plain):
@@ -791,6 +806,8 @@ def run(run):
             bump("ops", o)
         for ch in seq:
             bump("outcome", {"T": "tree", "S": "StopIteration", "O": "TimeoutError", "X": "other exception"}[ch])
+        if any(c["out"]["kind"] == "raise" and c["out"]["exn"] == "TimeoutErr" and c["sols"] for c in rec["calls"]):
+            run.cov["timeout_with_pending_solutions"] = run.cov.get("timeout_with_pending_solutions", 0) + 1
         shape = re.sub(r"(.)\1+", r"\1+", seq)
         bump("seq_shapes", shape)
         first = min([seq.index(ch) for ch in "SO" if ch in seq] or [len(seq)])
